@@ -493,4 +493,14 @@ instance instDecidableValidRun : (p : People) → (ops : List Op) → Decidable 
   | p, op :: ops => @instDecidableAnd _ _ _ (instDecidableValidRun (step p op) ops)
 
 
+/-- a balance of counts survives exact scaling -/
+theorem scaled_balance (s : Rat) (a k c d : Nat) (h : c + d = a + k) :
+    (c : Rat) * s + (d : Rat) * s = (a : Rat) * s + (k : Rat) * s := by
+  rw [← Rat.add_mul, ← Rat.add_mul]
+  have : ((c : Rat) + (d : Rat)) = ((a : Rat) + (k : Rat)) := by
+    have := congrArg (fun n : Nat => (n : Rat)) h
+    simpa [Rat.natCast_add] using this
+  rw [this]
+
+
 end StarsimModel.C10
